@@ -233,6 +233,20 @@ class Check:
         if not targets:
             self.proof_ok = False
             self.proof_problems.append({"kind": "no-obligations", "detail": "empty audit file"})
+        if self.proof_ok and self.tier == "thorough":
+            # independent re-check of the compiled theorems by leanchecker
+            t0 = time.time()
+            try:
+                p = subprocess.run(["lake", "env", "leanchecker", "Ypv.Props." + self.pid], cwd=LEAN_DIR,
+                                   stdout=subprocess.PIPE, stderr=subprocess.STDOUT, text=True, timeout=3000)
+                self.extra_cov["leanchecker"] = {"rc": p.returncode, "wall_s": round(time.time() - t0, 1)}
+                if p.returncode != 0:
+                    self.proof_ok = False
+                    self.proof_problems.append({"kind": "leanchecker", "detail": p.stdout[-600:]})
+            except subprocess.TimeoutExpired:
+                raise Infra("leanchecker timed out")
+            except FileNotFoundError:
+                self.extra_cov["leanchecker"] = "not available"
         return self.proof_ok
 
     # ---- bookkeeping
